@@ -134,7 +134,7 @@ def export(repo="/repo", verbose=False):
         lock.close()
 
 
-def _prune(keep, n=8, min_age_s=1800):
+def _prune(keep, n=60, min_age_s=7200):
     """drop old cache entries: beyond the n most recently *used* ones and not used for half an hour (checks of
     several properties and the self-test's mutants run concurrently and must not lose their entry while loading)"""
     ents = []
